@@ -14,6 +14,7 @@ THEOREMS = [
     'OpenHTF.AtomicFile.c17_atomic_atomic_write',
     'OpenHTF.AtomicFile.c17_success_exact',
     'OpenHTF.AtomicFile.rename_before_close_is_not_atomic',
+    'OpenHTF.AtomicFile.c17_atomic_with_any_flushes',
 ]
 RULE = ('OutputToFile subclass with a chunked serializer, OutputToJSON on a real record, and atomic_write; 0-4 chunks; old '
         'destination absent / present; faults: serializer raises after k chunks (every k), k-th write raises (every k), '
@@ -60,7 +61,8 @@ class Fs(object):
     if self.crash is not None and self.n >= self.crash:
       self.dead = True
       return False
-    self.n += 1
+    if tok != 'flush':      # crash points are counted in operations other than explicit flushes
+      self.n += 1
     self.log.append(tok)
     return True
 
